@@ -1198,15 +1198,12 @@ class MultiReader(IndexReader):
 
     def column_reader(self, fieldname, column=None, reverse=False,
                       translate=True):
-        crs = []
-        doc_offsets = []
-        for i, r in enumerate(self.readers):
-            if r.has_column(fieldname):
-                cr = r.column_reader(fieldname, column=column, reverse=reverse,
-                                     translate=translate)
-                crs.append(cr)
-                doc_offsets.append(self.doc_offsets[i])
-        return columns.MultiColumnReader(crs, doc_offsets)
+        # Ask every sub-reader: a segment without the column file returns a
+        # reader of defaults, so document numbers stay aligned
+        crs = [r.column_reader(fieldname, column=column, reverse=reverse,
+                               translate=translate)
+               for r in self.readers]
+        return columns.MultiColumnReader(crs)
 
     # Per doc methods
 
